@@ -60,6 +60,13 @@ CHECKS = {
              "wrong type, EOF); on every path that returns, the transcript is checked: tokens relayed in order exactly once, accepted contexts only, header signing = offered "
              "and advertised by every ack, request only on an accepted context; every other script must raise.",
         note="Trusted: interpreter, z3, the provider/server stubs. Scripts longer than legs+1 replies and fragmented replies (C14) are outside the claim."),
+    "C08": dict(
+        text="sid_to_bytes / ace/acl/sd_to_bytes / SIDDescriptor.get_target_sd are executed on structured symbolic SID strings S-R-A-s1..sn (every n in 1..15, R in [0,9], "
+             "A in [0,2^70), si in [0,2^34)): z3 proves the MS-DTYP byte layout for in-range values, ValueError for out-of-range values, injectivity, and that the target SD "
+             "decodes (independent parser) to SYSTEM owner/group and the two prescribed ACEs with consistent offsets/sizes. The accepted grammar is decided by translating "
+             "the regular expression the function actually applies (captured at run time) to a z3 regex with Python semantics and two language-inclusion queries.",
+        note="Trusted: interpreter, z3 (bit-vectors and the sequence/regex theory), the regex translation, the SD parser in props/c08.py. Leading-zero decimal forms are "
+             "not exercised symbolically; near-miss strings of the statement are additionally replayed natively."),
 }
 
 _PENDING = "check not built yet in this round (work in progress; see DESIGN.md for the plan)"
